@@ -359,7 +359,7 @@ CHECKS = {
         gens=[],
         props='ZanVerif.Props.C13',
         protos=[dict(name='scan', spec=True, quick_seeds=2, thorough_seeds=3)],
-        rule="populations of up to 25 keys of the five types over 1-3 neighbouring tables (t, t!, t0, s) with names that are prefixes of each other / contain ':' ';' 0x00 0xff, collections of up to 12 members; "
+        rule="(besides what follows: oracle-only ops fullg/cfullg = the client loops with MATCH <general glob pattern> — alternation, classes, ? — judged against the subset the glob library itself selects, 4 per session; bigpop = one session per run with 5200-6700 non-matching keys between three matches, KV and SET key scans with MATCH *hit*) populations of up to 25 keys of the five types over 1-3 neighbouring tables (t, t!, t0, s) with names that are prefixes of each other / contain ':' ';' 0x00 0xff, collections of up to 12 members; "
              "single pages and full client loops (cursor fed back until empty) of ADVSCAN / ADVREVSCAN for every type and of HSCAN/SSCAN/ZSCAN and their reverse forms, COUNT 1-6 and 0 (default) / 7 / 30 / 100 / 5001, start cursors inside and beyond the population, on pebble and mem(btree); "
              "non-trivial = answered without error; distinct = distinct op lines",
         trusted=["gobwas/glob MATCH filtering is not exercised (no MATCH argument is generated): the MATCH clause of the property is not covered",
